@@ -103,6 +103,11 @@ def oracle(ck, extended):
         zs = [j for j in range(J) if rng.random() < 0.5] or [rng.randrange(J)]
         highs_z = [np.zeros_like(h) if j in zs else h for j, h in enumerate(highs)]
         rt.guard(ck, oracle_inv, ck, b, s, bt, qt, low if rng.random() < 0.8 else np.zeros_like(low), highs_z, '%s/%s zero levels %s' % (b, s, [j + 1 for j in zs]))
+    for (H, W, J) in [(2, 2, 3), (4, 4, 4), (3, 5, 4), (8, 8, 5), (6, 2, 3)]:      # deeper than the image is large: several 1x1 levels
+        b, s = rng.choice(pairs); bt, qt = OD.lib_tables(b, s)
+        (lh, lw), hsz = pyramid_shapes(H, W, J)
+        low = gen.float_tensor(ck.nprng, (1, 2, lh, lw)); highs = [gen.float_tensor(ck.nprng, (1, 2, 6, a, b_, 2)) for a, b_ in hsz]
+        rt.guard(ck, oracle_inv, ck, b, s, bt, qt, low, highs, '%s/%s' % (b, s))
     for it in range((20 if q else 200) * (3 if extended else 1)):
         bt = OD.int_biort(rng, gen); qt = OD.int_qshift(rng, gen)
         J = rng.randint(1, 3)
